@@ -558,6 +558,64 @@ def g_mv_decode(ck, F):
     else: ck.ok('M', 'vector k = mv_decode(picture, options, predict_candidate(.., k), MVD_k) for k = 1..4; vectors 2..4 = vector 1 without four vectors', where_of(b))
 
 
+def w_wiring(ck, F):
+    ck.rule('W', 'decode_next_picture hands the vector machinery the right things: every predict_candidate call gets the vectors of the macroblocks decoded since the last '
+                 'group-of-blocks header (predictor_vectors[macroblocks_after_gob..], 6.1.1: predictors outside the current GOB are not used), this macroblock\'s vector '
+                 'array and the macroblocks-per-line count that gather and the level arrays use; every mv_decode call gets the picture being decoded and the options in force; '
+                 'the start index is 0 at the start of a picture and changes only behind decode_gob, to the number of macroblocks decoded so far')
+    from ..bitslice import Table
+    from ..loopexpr import Norm, show as nshow
+    CLO = 'h263_rs::decoder::state::H263State::decode_next_picture::{closure#0}'
+    b = F.body(CLO); Tb = Table(F, CLO, paths=False, cast_kinds=True); N = Norm(Tb); g = Tb.g
+    def calls(suffix): return [(bb, t, [N.n(Tb.ex(a)) for a in t['args']]) for bb, t in g.calls() if F.callee_name(t).split('#')[0].endswith(suffix)]
+    pc = calls('mvd_pred::predict_candidate'); md = calls('mvd_pred::mv_decode'); ga = calls('gather::gather'); gob = calls('gob::decode_gob')
+    if len(pc) != 4 or len(md) != 4 or len(ga) != 1 or len(gob) != 1:
+        ck.violation('W', 'W : decode_next_picture : call counts', where_of(b), 'expected 4 predict_candidate, 4 mv_decode, 1 gather, 1 decode_gob; found %d, %d, %d, %d' % (len(pc), len(md), len(ga), len(gob))); return
+    mbpl = ga[0][2][3]
+    # the vectors of earlier macroblocks: the whole list, or the list from the first macroblock after the last group-of-blocks header (6.1.1). decode_gob is a
+    # stub that never returns a header (C15.RS reads its returns), so today both are the same list; what the start index may be is constrained below
+    starts = set()
+    def earlier_ok(x):
+        if x == ('v', 'predictor_vectors'): return True
+        if x[0] == 'slice' and x[1] == ('v', 'predictor_vectors') and x[2][0] == 'agg':
+            if x[2][1] == 'RangeFull' and len(x[2]) == 2: return True
+            if x[2][1] == 'RangeFrom' and len(x[2]) == 3:
+                if x[2][2] == ('c', 0): return True
+                if x[2][2][0] == 'v': starts.add(x[2][2][1]); return True
+        return False
+    bad = []
+    for bb, t, a in pc:
+        if len(a) != 4: bad.append('predict_candidate takes %d arguments' % len(a)); continue
+        if not earlier_ok(a[0]): bad.append('predict_candidate(.., %s) is given %s as the earlier vectors, expected predictor_vectors (from the last group-of-blocks header on)' % (nshow(a[3]), nshow(a[0])))
+        if a[1] != ('v', 'motion_vectors'): bad.append('predict_candidate(.., %s) is given %s as the current vectors, expected motion_vectors' % (nshow(a[3]), nshow(a[1])))
+        if a[2] != mbpl: bad.append('predict_candidate(.., %s) is given %s as macroblocks per line, gather is given %s' % (nshow(a[3]), nshow(a[2]), nshow(mbpl)))
+    if len({a[0] for _, _, a in pc if len(a) == 4}) > 1: bad.append('the four predict_candidate calls are given different lists of earlier vectors')
+    for bb, t, a in md:
+        if len(a) != 4: bad.append('mv_decode takes %d arguments' % len(a)); continue
+        if a[0] != ('v', 'next_decoded_picture'): bad.append('mv_decode is given the picture %s, expected the picture being decoded' % nshow(a[0]))
+        if a[1] != ('v', 'next_running_options'): bad.append('mv_decode is given the options %s, expected the options in force (next_running_options)' % nshow(a[1]))
+    if ga[0][2][0] != ('v', 'macroblock_types') or ga[0][2][2] != ('v', 'predictor_vectors') or ga[0][2][4] != ('v', 'next_decoded_picture'):
+        bad.append('gather is given (%s, .., %s, .., %s)' % (nshow(ga[0][2][0]), nshow(ga[0][2][2]), nshow(ga[0][2][4])))
+    if bad: ck.violation('W', 'W : decode_next_picture : arguments', where_of(b), '; '.join(bad[:4]))
+    else: ck.ok('W', 'predict_candidate(%s, motion_vectors, %s, k) x 4; mv_decode(next_decoded_picture, next_running_options, .., ..) x 4; '
+                     'gather(macroblock_types, .., predictor_vectors, %s, next_decoded_picture)' % (nshow(pc[0][2][0]), nshow(mbpl), nshow(mbpl)), where_of(b, pc[0][0]))
+    # the start index, when there is one: 0 at the start of a picture; inside the loop only := macroblock_types.len(), and only behind decode_gob
+    loops = g.loops(); head = None
+    for h, body in loops.items():
+        if pc[0][0] in body and (head is None or len(body) < len(loops[head])): head = h
+    body = loops.get(head, set())
+    for nm in sorted(starts):
+        ls = [int(l) for l, n_ in Tb.names.items() if n_ == nm]
+        defs = [(d[1], N.n(Tb.ex_rv(d[3]['rv']))) for l in ls for d in Tb.D.defs.get(l, []) if d[0] == 'assign']
+        others = [d for l in ls for d in Tb.D.defs.get(l, []) if d[0] != 'assign']
+        init = [(bb, v) for bb, v in defs if bb not in body]; inl = [(bb, v) for bb, v in defs if bb in body]
+        ok = (not others and len(init) == 1 and init[0][1] == ('c', 0)
+              and all(v == ('f', 'len', ('v', 'macroblock_types')) and g.dominates(gob[0][0], bb) for bb, v in inl))
+        if ok: ck.ok('W', '%s = 0 before the loop; inside it only := macroblock_types.len(), behind decode_gob' % nm, where_of(b, init[0][0]))
+        else: ck.violation('W', 'W : decode_next_picture : %s' % nm, where_of(b), 'definitions of %s: before the loop %s, in the loop %s%s; expected 0 and, only after a group-of-blocks header, '
+                           'macroblock_types.len()' % (nm, [nshow(v) for _, v in init], [nshow(v) for _, v in inl], ' (and writes through calls)' if others else ''))
+
+
 def _mb_field(e, v_coded, tail):
     """e is field `tail` of the Coded payload of the value returned by decode_macroblock (through `?`)"""
     if e[0] != 'fld' or not (e[1][0] == 'call' and e[1][1].endswith('macroblock::decode_macroblock')): return False
@@ -586,6 +644,7 @@ def run(ck, F, tier):
     e_median(ck, F)
     f_zero_neighbours(ck, F)
     g_mv_decode(ck, F)
+    w_wiring(ck, F)
     # which bits are the differentials: MVD x then y from Table 14 (or the UMV code with PLUSPTYPE), for the types Table 9 gives vectors to
     from . import mblayer
     from ..report import Scoped
